@@ -974,6 +974,88 @@ func runConstRel(c *core.Ctx) []core.Obligation {
 		})
 		add("RectBounder.AddPoint:antipodal-branch", c.Pos(fn.Pos()), core.FuncName(fn), ok, "the full rectangle is assigned exactly on the nearly-antipodal side (A.B < 0)", why)
 	}
+	// (8) updateFaceEdges skips the cells of the face before and after the shrunk cell: both ranges are written begin <= end -
+	// (face.RangeMin, shrunk.RangeMin) and (shrunk.RangeMax.Next, face.RangeMax.Next); with the arguments the other way
+	// round the range is empty and the interior cells it should create are never made
+	if fn := c.Fn("s2", "ShapeIndex", "updateFaceEdges"); fn != nil {
+		origin := func(v ssa.Value) string { // "face" | "shrunk" | ""
+			for i := 0; i < 6; i++ {
+				call, isCall := v.(*ssa.Call)
+				if !isCall || core.StaticCallee(call) == nil {
+					return ""
+				}
+				switch core.StaticCallee(call).Name() {
+				case "CellIDFromFace":
+					return "face"
+				case "shrinkToFit":
+					return "shrunk"
+				case "RangeMin", "RangeMax", "Next":
+					v = call.Call.Args[0]
+				default:
+					return ""
+				}
+			}
+			return ""
+		}
+		kindOf := func(v ssa.Value) string { // min | maxnext
+			call, isCall := v.(*ssa.Call)
+			if !isCall || core.StaticCallee(call) == nil {
+				return ""
+			}
+			switch core.StaticCallee(call).Name() {
+			case "RangeMin":
+				return "min"
+			case "Next":
+				if inner, isC := call.Call.Args[0].(*ssa.Call); isC && core.StaticCallee(inner) != nil && core.StaticCallee(inner).Name() == "RangeMax" {
+					return "maxnext"
+				}
+			}
+			return ""
+		}
+		n, ok, why := 0, true, ""
+		core.AllInstrs(fn, func(in ssa.Instruction) {
+			call, isCall := in.(*ssa.Call)
+			if !isCall || core.StaticCallee(call) == nil || core.StaticCallee(call).Name() != "skipCellRange" || len(call.Call.Args) < 3 {
+				return
+			}
+			n++
+			b, e := call.Call.Args[1], call.Call.Args[2]
+			kb, ke, ob, oe := kindOf(b), kindOf(e), origin(b), origin(e)
+			switch {
+			case kb == "min" && ke == "min" && ob == "face" && oe == "shrunk":
+			case kb == "maxnext" && ke == "maxnext" && ob == "shrunk" && oe == "face":
+			case kb == "" || ke == "" || ob == "" || oe == "":
+				ok, why = false, "the arguments of a skipCellRange call in updateFaceEdges were not recognised"
+			default:
+				ok, why = false, fmt.Sprintf("skipCellRange(%s of the %s cell, %s of the %s cell): the range is written end-first, so it is empty and the index cells for the part of the face before (after) the shrunk cell are never created - points there are reported as outside shapes whose interior covers them", kb, ob, ke, oe)
+			}
+		})
+		if n < 2 {
+			ok, why = false, fmt.Sprintf("%d skipCellRange calls found in updateFaceEdges, 2 expected", n)
+		}
+		add("updateFaceEdges:skip-ranges-ordered", c.Pos(fn.Pos()), core.FuncName(fn), ok, "both skipped ranges are written begin <= end", why)
+	}
+	// (9) a ShapeIndex target always uses the max error it is given (its sub-query does), so setMaxError answers true
+	// unconditionally; the outer query decides from that answer whether cell distances are still lower bounds
+	for _, typ := range []string{"MinDistanceToShapeIndexTarget", "MaxDistanceToShapeIndexTarget"} {
+		fn := c.Fn("s2", typ, "setMaxError")
+		if fn == nil {
+			add(typ+".setMaxError:always-true", "-", "", false, "", "unresolved anchor")
+			continue
+		}
+		allTrue, nret := true, 0
+		for _, b := range fn.Blocks {
+			if r, isRet := b.Instrs[len(b.Instrs)-1].(*ssa.Return); isRet && len(r.Results) == 1 {
+				nret++
+				k, isK := r.Results[0].(*ssa.Const)
+				if !isK || k.Value == nil || k.Value.String() != "true" {
+					allTrue = false
+				}
+			}
+		}
+		add(typ+".setMaxError:always-true", c.Pos(fn.Pos()), core.FuncName(fn), allTrue && nret > 0, "every return is true",
+			typ+".setMaxError can answer false although the sub-query keeps using the error: the outer query then treats cell distances as exact lower bounds and stops before it has seen a closer edge")
+	}
 	_ = sort.Strings
 	return obs
 }
